@@ -65,6 +65,7 @@ func hostilePath(rng *rand.Rand) []byte {
 func genC07(rng *rand.Rand, c *Case) {
 	c.Cfg["policy"] = 3
 	c.Cfg["forks"] = rng.Intn(2)
+	c.Cfg["acctroot"] = rng.Intn(3) / 2
 	c.Cfg["nest"] = 16 // deeper than any chain of ".." the hostile grammar can produce
 	n := 6 + rng.Intn(30)
 	kinds := []string{"alias-move", "list", "info", "setinfo", "delete", "move", "mkdir", "alias", "download", "upload", "fldr-download", "fldr-upload", "newuser", "renameuser", "deluser", "setuser"}
@@ -74,7 +75,19 @@ func genC07(rng *rand.Rand, c *Case) {
 }
 
 func runC07(w *World) {
-	w.AddAccount("guest", "Guest", "", rp.AllAccess().With(rp.PNoAgreement))
+	// the client's file root: the server-wide root, or a root of its own configured in the account (then the
+	// server-wide root is outside for this client, like everything else)
+	croot := w.FileRoot
+	if w.Case.Cfg["acctroot"] == 1 {
+		croot = filepath.Join(w.Sandbox, "home")
+		must(os.MkdirAll(croot, 0755))
+		must(os.WriteFile(filepath.Join(w.FileRoot, "shared-"+canaryMark+".txt"), []byte("server-wide root "+secretMark), 0644))
+		must(os.MkdirAll(filepath.Join(w.FileRoot, "Uploads"), 0755))
+		w.WriteFile("Users/guest.yaml", rp.AccountYAML("guest", "Guest", HashPw(string(rp.Obfuscate(nil))), rp.AllAccess().With(rp.PNoAgreement), croot))
+		w.Probe("account_with_own_file_root")
+	} else {
+		w.AddAccount("guest", "Guest", "", rp.AllAccess().With(rp.PNoAgreement))
+	}
 	w.WriteFile("Users/admin.yaml", rp.AccountYAML("admin", secretMark+"-admin-name", HashPw("zz"), rp.AllAccess(), ""))
 	w.WriteFile("secret-"+canaryMark+".txt", "config secret "+secretMark)
 	sandbox := w.Sandbox
@@ -83,10 +96,10 @@ func runC07(w *World) {
 	must(os.WriteFile(filepath.Join(sandbox, "canarydir-"+canaryMark, "inner.txt"), []byte("inner "+secretMark), 0644))
 	must(os.WriteFile(filepath.Join(sandbox, "canarydir-"+canaryMark, "name-"+secretMark+".txt"), []byte("x"), 0644))
 	must(os.WriteFile(filepath.Join(filepath.Dir(sandbox), "outer-"+canaryMark+".txt"), []byte("outer "+secretMark), 0644))
-	must(os.MkdirAll(filepath.Join(w.FileRoot, "sub", "deep"), 0755))
-	must(os.MkdirAll(filepath.Join(w.FileRoot, "Uploads"), 0755))
-	must(os.WriteFile(filepath.Join(w.FileRoot, "file.txt"), []byte("inside the root"), 0644))
-	must(os.WriteFile(filepath.Join(w.FileRoot, "sub", "deep", "d.txt"), []byte("deep inside"), 0644))
+	must(os.MkdirAll(filepath.Join(croot, "sub", "deep"), 0755))
+	must(os.MkdirAll(filepath.Join(croot, "Uploads"), 0755))
+	must(os.WriteFile(filepath.Join(croot, "file.txt"), []byte("inside the root"), 0644))
+	must(os.WriteFile(filepath.Join(croot, "sub", "deep", "d.txt"), []byte("deep inside"), 0644))
 	w.StartServer()
 
 	// everything outside the file root and the accounts directory must never change
@@ -94,7 +107,7 @@ func runC07(w *World) {
 		m := SnapshotTree(w.Dir)
 		rel, _ := filepath.Rel(w.Dir, w.Sandbox)
 		for k := range m {
-			if hasPrefixAny(k, rel+"/root/", rel+"/config/Users/") || k == rel+"/root" || k == rel+"/config/Users" {
+			if hasPrefixAny(k, rel+"/"+filepath.Base(croot)+"/", rel+"/config/Users/") || k == rel+"/"+filepath.Base(croot) || k == rel+"/config/Users" {
 				delete(m, k)
 			}
 		}
@@ -117,13 +130,13 @@ func runC07(w *World) {
 			}
 		}
 		// nothing inside the root may point outside
-		for k, v := range SnapshotTree(w.FileRoot) {
+		for k, v := range SnapshotTree(croot) {
 			if strings.HasPrefix(v, "<link>") {
 				tgt := strings.TrimPrefix(v, "<link>")
 				if !filepath.IsAbs(tgt) {
-					tgt = filepath.Join(w.FileRoot, filepath.Dir(k), tgt)
+					tgt = filepath.Join(croot, filepath.Dir(k), tgt)
 				}
-				if rel, err := filepath.Rel(w.FileRoot, filepath.Clean(tgt)); err != nil || rel == ".." || strings.HasPrefix(rel, "../") {
+				if rel, err := filepath.Rel(croot, filepath.Clean(tgt)); err != nil || rel == ".." || strings.HasPrefix(rel, "../") {
 					w.Violate("c07-link-to-outside-"+op.K, "step %d %s: %s created a link %q -> %q that leaves the file root", step, op.K, desc, k, tgt)
 					return false
 				}
